@@ -341,7 +341,11 @@ func execStmt(s *DBState, staged *[]dbOp, query string, args []any) (int64, erro
 		}
 		key, ok := args[len(cols)].(string)
 		if !ok {
-			Unsupported("UPDATE with a non-string key")
+			// SQLite is dynamically typed: a BLOB never equals the TEXT keys this table holds
+			if _, isBytes := args[len(cols)].([]byte); isBytes {
+				return 0, nil
+			}
+			Unsupported("UPDATE with a key of an unsupported type")
 		}
 		row, exists := lookupIn(s, cur, key)
 		if !exists {
@@ -352,7 +356,11 @@ func execStmt(s *DBState, staged *[]dbOp, query string, args []any) (int64, erro
 			case colChkpt:
 				v, ok := args[i].([]byte)
 				if !ok {
-					Unsupported("UPDATE with a non-[]byte chkpt")
+					sv, isStr := args[i].(string)
+					if !isStr {
+						Unsupported("UPDATE with a chkpt value of an unsupported type")
+					}
+					v = []byte(sv) // stored as TEXT, read back as the same bytes
 				}
 				row.Chkpt = v
 			case colLogID:
